@@ -20,6 +20,7 @@ pub struct Val {
 }
 
 pub struct Sess {
+    pub touch: bool,
     pub sid: u64,
     pub kind: String,
     pub family: String,
@@ -32,7 +33,7 @@ pub struct Sess {
 
 impl Sess {
     pub fn new(sid: u64, kind: &str, family: &str, seed: u64) -> Sess {
-        Sess { sid, kind: kind.into(), family: family.into(), seed, events: vec![], vals: HashMap::new(), nres: 0, mag: 1.0 }
+        Sess { touch: false, sid, kind: kind.into(), family: family.into(), seed, events: vec![], vals: HashMap::new(), nres: 0, mag: 1.0 }
     }
 
     /// define a named operand; `rel` is the JSON fragment describing its relation to earlier names
@@ -43,10 +44,13 @@ impl Sess {
         self.mag = self.mag.max(mag);
         let s = run::snap(&g64, k, mag);
         let seen = run::snapped_to_imp(&s);
+        let big = mag > 4096.0;
         self.events.push(format!(
-            "{{\"ev\":\"def\",\"name\":{},\"k\":{},\"mp\":{},{}}}",
+            "{{\"ev\":\"def\",\"name\":{},\"k\":{},\"big\":{},\"touch\":{},\"mp\":{},{}}}",
             run::jstr(name),
             k,
+            big,
+            self.touch,
             run::json_snapped(&s),
             rel
         ));
@@ -74,7 +78,10 @@ impl Sess {
         let budget = 8 * (n as u64) * (n as u64) + 64;
         let xd0 = run::digest(x);
         let yd0 = run::digest(y);
-        let (o, r) = run::call(x, y, run::op_of(op), px, py, budget);
+        let (o, r) = run::call_guarded(x, y, run::op_of(op), px, py, budget, 20);
+        if o.outcome == "timeout" {
+            HUNG.store(true, std::sync::atomic::Ordering::SeqCst);
+        }
         let xd1 = run::digest(x);
         let yd1 = run::digest(y);
         let s = r.as_ref().map(|m| run::snap(m, k, mag));
@@ -109,6 +116,9 @@ impl Sess {
 
     /// one real call; the result is stored under a fresh name and returned
     pub fn call(&mut self, op: &str, x: &str, y: &str, px: char, py: char, f32_: bool) -> String {
+        if HUNG.load(std::sync::atomic::Ordering::SeqCst) {
+            return x.to_string(); // a previous call never returned: stop calling, the session ends here
+        }
         let res = self.fresh();
         let (vx, vy) = (self.vals[x].clone(), self.vals[y].clone());
         assert_eq!(vx.k, vy.k, "operands must be in the same frame");
@@ -171,6 +181,9 @@ impl Sess {
     }
 }
 
+/// set when a library call did not return: the process must stop after the current session
+pub static HUNG: std::sync::atomic::AtomicBool = std::sync::atomic::AtomicBool::new(false);
+
 pub const BASE: &str = "\"rel\":\"base\"";
 
 /// family "rectw" = axis-parallel operands presented in a non-representable frame (int / d)
@@ -196,8 +209,20 @@ pub fn canon_pair(fam: &str, kmax: i64, rng: &mut Rng) -> (Vec<(Vec<P>, Vec<Vec<
         let (x, y) = gen::frames_pair(rng);
         return if rng.chance(1, 2) { (x, y) } else { (y, x) };
     }
+    if fam == "tfan" {
+        let (x, y) = gen::tfan_pair(rng);
+        return if rng.chance(1, 2) { (x, y) } else { (y, x) };
+    }
     if fam == "fan" {
         let (x, y) = gen::fan_pair(rng);
+        return if rng.chance(1, 2) { (x, y) } else { (y, x) };
+    }
+    if let Some(bits) = fam.strip_prefix("bigfan").and_then(|b| b.parse::<u32>().ok()) {
+        let (x, y) = gen::bigfan_pair(rng, bits);
+        return if rng.chance(1, 2) { (x, y) } else { (y, x) };
+    }
+    if let Some(bits) = fam.strip_prefix("bigsliver").and_then(|b| b.parse::<u32>().ok()) {
+        let (x, y) = gen::bigsliver_pair(rng, bits);
         return if rng.chance(1, 2) { (x, y) } else { (y, x) };
     }
     if fam == "lat" {
@@ -246,6 +271,7 @@ pub struct Opts {
 pub fn sess_five(sid: u64, fam: &str, seed: u64, o: &Opts) -> Sess {
     let mut rng = Rng::new(seed);
     let mut s = Sess::new(sid, "five", fam, seed);
+    s.touch = fam.starts_with("big");
     let fr = frame_for(fam, &mut rng);
     let (a, b) = loop {
         let (ca, cb) = canon_pair(fam, o.kmax, &mut rng);
@@ -274,6 +300,7 @@ pub fn sess_five(sid: u64, fam: &str, seed: u64, o: &Opts) -> Sess {
 pub fn sess_single(sid: u64, fam: &str, seed: u64, o: &Opts) -> Sess {
     let mut rng = Rng::new(seed);
     let mut s = Sess::new(sid, "single", fam, seed);
+    s.touch = fam.starts_with("big");
     let fr = frame_for(fam, &mut rng);
     let (a, b) = loop {
         let (mut ca, mut cb) = canon_pair(fam, o.kmax, &mut rng);
@@ -291,7 +318,8 @@ pub fn sess_single(sid: u64, fam: &str, seed: u64, o: &Opts) -> Sess {
     };
     s.def("A", &a, fr, BASE);
     s.def("B", &b, fr, BASE);
-    let f32_ = rng.chance(1, 5);
+    let f32_ok = fam.strip_prefix("bigfan").or_else(|| fam.strip_prefix("bigsliver")).and_then(|b| b.parse::<u32>().ok()).map(|b| b <= 24).unwrap_or(true);
+    let f32_ = f32_ok && rng.chance(1, 5);
     for (op, _) in run::OPS {
         s.call(op, "A", "B", 'p', 'p', f32_);
     }
@@ -299,9 +327,10 @@ pub fn sess_single(sid: u64, fam: &str, seed: u64, o: &Opts) -> Sess {
 }
 
 /// kind "repr": re-presentations of the same operands and the four trait pairings
-pub fn sess_repr(sid: u64, fam: &str, seed: u64, o: &Opts) -> Sess {
+pub fn sess_repr(sid: u64, fam: &str, seed: u64, o: &Opts, f32_: bool) -> Sess {
     let mut rng = Rng::new(seed);
-    let mut s = Sess::new(sid, "repr", fam, seed);
+    let mut s = Sess::new(sid, if f32_ { "repr32" } else { "repr" }, fam, seed);
+    s.touch = fam.starts_with("big");
     let fr = frame_for(fam, &mut rng);
     let (ca, cb) = loop {
         let (mut ca, mut cb) = canon_pair(fam, o.kmax, &mut rng);
@@ -323,19 +352,19 @@ pub fn sess_repr(sid: u64, fam: &str, seed: u64, o: &Opts) -> Sess {
     s.def("A2", &gen::present(&ca, wild, &mut rng), fr, "\"rel\":\"rewrite\",\"of\":\"A\"");
     s.def("B2", &gen::present(&cb, wild, &mut rng), fr, "\"rel\":\"rewrite\",\"of\":\"B\"");
     for (op, _) in run::OPS {
-        s.call(op, "A", "B", 'm', 'm', false);
-        s.call(op, "A2", "B2", 'm', 'm', false);
+        s.call(op, "A", "B", 'm', 'm', f32_);
+        s.call(op, "A2", "B2", 'm', 'm', f32_);
         if rng.chance(1, 2) {
-            s.call(op, "A2", "B", 'm', 'm', false);
+            s.call(op, "A2", "B", 'm', 'm', f32_);
         } else {
-            s.call(op, "A", "B2", 'm', 'm', false);
+            s.call(op, "A", "B2", 'm', 'm', f32_);
         }
         // the other trait implementations (take effect only for one-polygon operands)
-        s.call(op, "A", "B", 'p', 'p', false);
-        s.call(op, "A", "B", 'p', 'm', false);
-        s.call(op, "A", "B", 'm', 'p', false);
-        s.call(op, "B", "A", 'p', 'm', false);
-        s.call(op, "B", "A", 'm', 'p', false);
+        s.call(op, "A", "B", 'p', 'p', f32_);
+        s.call(op, "A", "B", 'p', 'm', f32_);
+        s.call(op, "A", "B", 'm', 'p', f32_);
+        s.call(op, "B", "A", 'p', 'm', f32_);
+        s.call(op, "B", "A", 'm', 'p', f32_);
     }
     s
 }
@@ -449,6 +478,7 @@ pub fn sess_far(sid: u64, fam: &str, seed: u64, o: &Opts) -> Sess {
 pub fn sess_f32(sid: u64, fam: &str, seed: u64, o: &Opts) -> Sess {
     let mut rng = Rng::new(seed);
     let mut s = Sess::new(sid, "f32", fam, seed);
+    s.touch = fam.starts_with("big");
     let fr = frame_for(fam, &mut rng);
     let (a, b) = loop {
         let (ca, cb) = canon_pair(fam, o.kmax, &mut rng);
